@@ -65,6 +65,7 @@ fn run_stream(out: &mut util::Out, args: &[String], seed: u64, tier: &str, rest:
         "sd" => s_sd::run(out, seed, &tier),
         "trace" => s_trace::run(out, &rest[0]),
         "why" => s_trace::why_abort(out),
+        "explain" => s_trace::explain(out, &rest[0]),
         "rigid" => s_rigid::run(out, seed, &tier),
         "fragments" => s_fragments::run(out, seed, &tier),
         "robust" => s_robust::run(out, seed, &tier),
